@@ -25,7 +25,7 @@ var c10 struct {
 	t        *simrt.Tape
 	rate     int // injection probability per hook call, in 1/10000
 	active   bool
-	kinds    [8]int
+	kinds    [9]int
 	hookDec  int
 	hookEnc  int
 	hookCb   int
@@ -37,10 +37,11 @@ var c10 struct {
 	depth    int
 }
 
-var c10EventNames = []string{"gc", "grow", "grow+gc(shrink)", "traceback", "gosched", "bg-gc-cycle", "debug.Stack", "alloc-churn"}
+var c10EventNames = []string{"gc", "grow", "grow+gc(shrink)", "traceback", "gosched", "bg-gc-cycle", "debug.Stack", "alloc-churn", "block-profile-sample(fp-unwind)"}
 
 func initC10(cfg map[string]string) {
 	debug.SetGCPercent(-1) // only simulated collections happen
+	runtime.SetBlockProfileRate(1)
 	if !c10Install(c10OpHook) {
 		fmt.Println(`{"k":"err","detail":"C10 needs the c10 build flavour"}`)
 	}
@@ -164,6 +165,39 @@ func c10Event(where int, op, next int) {
 		}
 		c10Sink = keep
 		c10Sink = nil
+	case 8:
+		// a profile sample: the block profiler unwinds by FRAME POINTERS (not by the pc/sp
+		// tables the other tracebacks use), through the generated frames below us
+		ch := make(chan int)
+		go func() { ch <- 1 }()
+		<-ch // blocks: with SetBlockProfileRate(1) the runtime records a block event here
+		var recs [256]runtime.BlockProfileRecord
+		n, _ := runtime.BlockProfile(recs[:])
+		for i := 0; i < n && i < len(recs); i++ {
+			st := recs[i].Stack()
+			fr := runtime.CallersFrames(st)
+			inEvent, ok := false, false
+			var names []string
+			for {
+				f, more := fr.Next()
+				if len(names) < 14 {
+					names = append(names, f.Function)
+				}
+				if strings.HasSuffix(f.Function, "main.c10Event") {
+					inEvent = true
+				}
+				if strings.HasSuffix(f.Function, "main.c10Sentinel") {
+					ok = true
+				}
+				if !more {
+					break
+				}
+			}
+			// Stack0 holds at most 32 frames: a full record may simply be cut off
+			if inEvent && !ok && len(st) < 32 && c10.traceBad == "" {
+				c10.traceBad = "block-profile stack (frame-pointer unwinding) stops early: " + strings.Join(names, " <- ")
+			}
+		}
 	}
 }
 
